@@ -35,5 +35,10 @@ CLAIMS = {
     'C18': _e('Bounded stand-in: pooled vs sequential application for every completion order of <=4 delayed tasks, worker counts, chunk sizes; Batch and zip store workers.'),
     'C19': _e('Bounded stand-in: Quilt vs concatenated Frame, Batch vs per-Frame application.'),
 }
-NOT_APPLICABLE = {pid: 'check under construction in this session (bounded stand-in being written); see DESIGN.md §3'
-                  for pid in ['C04', 'C13', 'C15', 'C20']}
+CLAIMS.update({
+    'C04': _p('Deductive: the key->position arithmetic that selection rests on is proved for all inputs: slice_to_inclusive_slice (label slices include their stop), TypeBlocks._cols_to_slice and _indices_to_contiguous_pairs (a key expands to exactly its positions, in key order, tiled over the blocks). Whole selections (iloc/loc/getitem/bloc on flat, auto-integer, datetime and hierarchical axes) are covered by a bounded reference-model stand-in.'),
+    'C13': _e('Bounded stand-in: partition contract for iter_group* (every key vector over small alphabets, 13 key kinds, both axes, label depths, both grouping paths) and reference enumeration of windows for all size/step/shift/label_shift/size_increment in a small box.'),
+    'C15': _e('Bounded stand-in: frame.f(axis, skipna) against the per-column / per-row NumPy computation for 18 reduction variants x 12 column kinds x all layouts; many defects of this version are recorded as known findings.'),
+    'C20': _e('Bounded stand-in: dict-of-rows relational reference for pivot / stack-unstack / joins / set_index / relabel_shift round trips.'),
+})
+NOT_APPLICABLE = {}
